@@ -655,6 +655,103 @@ type c02Case struct {
 	addGroups bool
 	obs       c02Obs
 	desc      string
+	// the process environment the request was served under: the variables (named like the variables the configured
+	// templates use) that were set to a foreign value; nil = none of them is set
+	env [][2]string
+}
+
+func (cs c02Case) envString() string {
+	var l []string
+	for _, e := range cs.env {
+		l = append(l, e[0]+"="+e[1])
+	}
+	return "[" + strings.Join(l, " ") + "]"
+}
+
+func (cs c02Case) envCoq() string {
+	var l []string
+	for _, e := range cs.env {
+		l = append(l, "("+coqBS(e[0])+", "+coqBS(e[1])+")")
+	}
+	return "[" + strings.Join(l, "; ") + "]"
+}
+
+// every variable name the configured templates refer to: the identifiers after `$`, `${`, `${#`, `${!` in the
+// keys and values, in order of first appearance; USERNAME (the one variable the expansion knows) always
+func c02TemplateVariables(tpl []sshExtension) []string {
+	isStart := func(c byte) bool { return c == '_' || (c >= 'a' && c <= 'z') || (c >= 'A' && c <= 'Z') }
+	isPart := func(c byte) bool { return isStart(c) || (c >= '0' && c <= '9') }
+	seen := map[string]bool{"USERNAME": true}
+	out := []string{"USERNAME"}
+	scan := func(s string) {
+		for i := 0; i < len(s); i++ {
+			if s[i] != '$' {
+				continue
+			}
+			j := i + 1
+			if j < len(s) && s[j] == '{' {
+				j++
+				if j < len(s) && (s[j] == '#' || s[j] == '!') {
+					j++
+				}
+			}
+			k := j
+			if k < len(s) && isStart(s[k]) {
+				for k < len(s) && isPart(s[k]) {
+					k++
+				}
+			}
+			if k > j && !seen[s[j:k]] {
+				seen[s[j:k]] = true
+				out = append(out, s[j:k])
+			}
+		}
+	}
+	for _, e := range tpl {
+		scan(e.Key)
+		scan(e.Value)
+	}
+	return out
+}
+
+// names the harness, the Go runtime or the code under test read for their own purposes are never touched
+func c02EnvReserved(name string) bool {
+	switch name {
+	case "PATH", "HOME", "PWD", "TMPDIR", "TMP", "TEMP", "USER", "SHELL", "LANG", "TZ", "IFS":
+		return true
+	}
+	return strings.HasPrefix(name, "GO") || strings.HasPrefix(name, "VERIF_") || strings.HasPrefix(name, "LC_") ||
+		strings.HasPrefix(name, "SSH_") || strings.HasPrefix(name, "XDG_")
+}
+
+// run f with the given variables set (value nil: unset) in the process environment, and put back what was there
+func c02WithEnv(vars map[string]*string, f func()) {
+	type saved struct {
+		val string
+		ok  bool
+	}
+	old := map[string]saved{}
+	for n := range vars {
+		v, ok := os.LookupEnv(n)
+		old[n] = saved{v, ok}
+	}
+	defer func() {
+		for n, o := range old {
+			if o.ok {
+				os.Setenv(n, o.val)
+			} else {
+				os.Unsetenv(n)
+			}
+		}
+	}()
+	for n, v := range vars {
+		if v == nil {
+			os.Unsetenv(n)
+		} else {
+			os.Setenv(n, *v)
+		}
+	}
+	f()
 }
 
 func c02Mapper(user string) func(string) string {
@@ -667,7 +764,7 @@ func c02Mapper(user string) func(string) string {
 }
 
 func TestVerif_C02(t *testing.T) {
-	res := newVerifResult("12 server configurations (plain; extension templates + Kerberos realm + group database with prefix; Ed25519 CA + templates + normalisation disabled; templates whose expansion fails: command substitution in a value / in a name, arithmetic errors that depend on the length or the characters of the user name, unterminated forms; published-keys family: keymaster_public_keys_filename listing foreign keys / own main key / own Ed25519 key / both twice after a foreign key with an Ed25519 CA, own main key without one - reduced request set) x user names (case variants, dots, dashes, plus, UTF-8 precomposed / decomposed, trailing dot, 1 / 63 / 64 / 65 / 255 bytes, names sharing a 64-byte prefix, seeded random) x 7 key types/sizes x {ssh, x509, x509-kubernetes} x addGroups; requests for other names (case variants, prefixes, other users); logins with case variants; non-trivial = a certificate was issued; distinct by (configuration, name, key, type, groups flag, outcome)")
+	res := newVerifResult("12 server configurations (plain; extension templates + Kerberos realm + group database with prefix; Ed25519 CA + templates + normalisation disabled; templates whose expansion fails: command substitution in a value / in a name, arithmetic errors that depend on the length or the characters of the user name, unterminated forms; published-keys family: keymaster_public_keys_filename listing foreign keys / own main key / own Ed25519 key / both twice after a foreign key with an Ed25519 CA, own main key without one - reduced request set) x user names (case variants, dots, dashes, plus, UTF-8 precomposed / decomposed, trailing dot, 1 / 63 / 64 / 65 / 255 bytes, names sharing a 64-byte prefix, seeded random) x 7 key types/sizes x {ssh, x509, x509-kubernetes} x addGroups; requests for other names (case variants, prefixes, other users); logins with case variants; in every configuration with templates the SSH request of three users again with environment variables named like every variable the templates refer to set to foreign values (root, another user) in the process environment; non-trivial = a certificate was issued; distinct by (configuration, name, key, type, groups flag, outcome, environment)")
 	rng := mrand.New(mrand.NewSource(verifSeed()))
 	keys := c02Keys()
 	_, edPriv, err := ed25519.GenerateKey(rand.Reader)
@@ -830,7 +927,7 @@ func TestVerif_C02(t *testing.T) {
 			judge(cs)
 			injective(cs)
 			cases = append(cases, cs)
-			res.eval(fmt.Sprintf("%d|%s|%s|%d|%d|%v|%v|%d", cs.variant, cs.user, cs.target, cs.typ, cs.key, cs.addGroups, cs.obs.issued, cs.obs.status), cs.obs.issued)
+			res.eval(fmt.Sprintf("%d|%s|%s|%d|%d|%v|%v|%d|%s", cs.variant, cs.user, cs.target, cs.typ, cs.key, cs.addGroups, cs.obs.issued, cs.obs.status, cs.envString()), cs.obs.issued)
 			if cs.obs.issued {
 				res.bump("issued")
 				res.bump("issued:" + c01Types[cs.typ])
@@ -904,6 +1001,99 @@ func TestVerif_C02(t *testing.T) {
 				res.bump("other-name-in-url")
 			}
 		}
+		// ---- the process environment.  The only variable an extension template may read is the authenticated user
+		// (certgen.go expandSSHExtensions: mapper USERNAME -> username, everything else empty): the daemon's environment
+		// is no input of the certificate.  Every state with templates is asked again with environment variables named
+		// like EVERY variable its templates use set to foreign values (root, another user of the test set); the answer
+		// must be the one for the authenticated user with the environment ignored, and the one obtained with the
+		// variable unset.
+		if len(v.templates) > 0 {
+			vars := []string{}
+			for _, n := range c02TemplateVariables(v.templates) {
+				if !c02EnvReserved(n) {
+					vars = append(vars, n)
+				}
+			}
+			envNames := []string{"alice", "a.b-c+d_e", "bob"}
+			if v.names != nil {
+				envNames = v.names
+				if len(envNames) > 3 && !verifThorough() {
+					envNames = envNames[:3]
+				}
+			}
+			unsetAll := map[string]*string{}
+			for _, n := range vars {
+				unsetAll[n] = nil
+			}
+			wantFor := func(user string) (map[string]string, bool) {
+				want := map[string]string{"permit-X11-forwarding": "", "permit-agent-forwarding": "", "permit-port-forwarding": "", "permit-pty": "", "permit-user-rc": ""}
+				custom := map[string]string{}
+				for _, e := range v.templates {
+					k, err1 := shell.Expand(e.Key, c02Mapper(user))
+					val, err2 := shell.Expand(e.Value, c02Mapper(user))
+					if err1 != nil || err2 != nil {
+						return nil, false
+					}
+					custom[k] = val
+				}
+				for k, val := range custom {
+					if k != "" {
+						want[k] = val
+					}
+				}
+				return want, true
+			}
+			for ni, name := range envNames {
+				ki := 3
+				var base c02Obs
+				c02WithEnv(unsetAll, func() { base = issue(name, name, 0, ki, false, "cookie") })
+				res.bump("environment:baseline")
+				foreign := []string{"root", envNames[(ni+1)%len(envNames)]}
+				for _, vn := range vars {
+					for fi, fv := range foreign {
+						if fv == name {
+							continue
+						}
+						set := map[string]*string{}
+						for _, n := range vars {
+							set[n] = nil
+						}
+						val := fv
+						set[vn] = &val
+						typ := 0
+						if fi == 1 && ni == 0 && vn == "USERNAME" {
+							// one X.509 request per state under the foreign environment as well
+							c02WithEnv(set, func() {
+								o := issue(name, name, 1, ki, false, "cookie")
+								record(c02Case{variant: vi, user: name, target: name, typ: 1, key: ki, obs: o, env: [][2]string{{vn, fv}}})
+							})
+							res.bump("environment:foreign")
+						}
+						var o c02Obs
+						c02WithEnv(set, func() { o = issue(name, name, typ, ki, false, "cookie") })
+						cs := c02Case{variant: vi, user: name, target: name, typ: typ, key: ki, obs: o, env: [][2]string{{vn, fv}}}
+						record(cs)
+						res.bump("environment:foreign")
+						d := map[string]interface{}{"configuration": v.name, "user": name, "url_name": name, "type": c01Types[typ], "key": keys[ki].name,
+							"environment": map[string]string{vn: fv}}
+						ob := map[string]interface{}{"status": o.status, "names": o.names, "extensions": o.exts, "status_with_variable_unset": base.status, "extensions_with_variable_unset": base.exts}
+						oracle := "the only variable an extension template reads is the authenticated user: the daemon's environment is no input of the certificate (the extension map is the one for the user with the environment ignored, and the one issued with the variable unset)"
+						want, expands := wantFor(name)
+						switch {
+						case o.issued && o.ssh && expands && fmt.Sprintf("%q", want) != fmt.Sprintf("%q", o.exts):
+							hit("extensions:environment-overrides-user", oracle,
+								fmt.Sprintf("%s: with %s=%q in the daemon's environment the SSH certificate of user %q carries extensions %q; for the user %q with the environment ignored they are %q (with %s unset the server issued %q)", v.name, vn, fv, name, o.exts, name, want, vn, base.exts), d, ob)
+						case o.issued && o.ssh && !expands:
+							hit("extensions:environment-overrides-user", oracle,
+								fmt.Sprintf("%s: with %s=%q in the daemon's environment user %q receives an SSH certificate with extensions %q although a configured template does not expand for the user name %q (with %s unset: status %d)", v.name, vn, fv, name, o.exts, name, vn, base.status), d, ob)
+						case o.issued != base.issued || (o.issued && fmt.Sprintf("%q", o.exts) != fmt.Sprintf("%q", base.exts)):
+							hit("extensions:environment-overrides-user", oracle,
+								fmt.Sprintf("%s: user %q: with %s=%q in the daemon's environment status %d, extensions %q; with %s unset status %d, extensions %q", v.name, name, vn, fv, o.status, o.exts, vn, base.status, base.exts), d, ob)
+						}
+					}
+				}
+			}
+		}
 		// ---- the name a login mints a credential for (reprocessUsername), then the endpoint
 		if vi == 0 || vi == 2 {
 			for _, lu := range []struct{ submitted, password string }{{"alice", "alicepw"}, {"Alice", "alicepw"}, {"ALICE", "alicepw"}, {"a.B-c+D_e", "pw1"}, {"Carol.O-Neil", "pw2"}, {"X", "pw3"}} {
@@ -953,7 +1143,7 @@ func TestVerif_C02(t *testing.T) {
 	for vi, v := range variants {
 		sb.WriteString(fmt.Sprintf("Definition tpl_%d : list (bs * bs) := %s.\n", vi, tplCoq(v.templates)))
 	}
-	sb.WriteString("Definition mk (ed : bool) (extra : list N) (tpl : list (bs * bs)) (realm : option bs) (exp : list (bs * option bs)) (g m : option (list bs)) (u tg : bs) (ty : N) (k : option (N * bool)) (ag : bool) (o : observed) : c02case :=\n  {| k_host := " + coqBS(host) + "; k_ed_ca := ed; k_extra := extra; k_templates := tpl; k_realm := realm; k_expansions := exp; k_groups := g; k_methods := m; k_user := u; k_target := tg; k_type := ty; k_key := k; k_add_groups := ag; k_obs := o |}.\n")
+	sb.WriteString("Definition mk (ed : bool) (extra : list N) (tpl : list (bs * bs)) (realm : option bs) (exp : list (bs * option bs)) (g m : option (list bs)) (u tg : bs) (ty : N) (k : option (N * bool)) (ag : bool) (ev : list (bs * bs)) (o : observed) : c02case :=\n  {| k_host := " + coqBS(host) + "; k_ed_ca := ed; k_extra := extra; k_templates := tpl; k_realm := realm; k_expansions := exp; k_groups := g; k_methods := m; k_user := u; k_target := tg; k_type := ty; k_key := k; k_add_groups := ag; k_env := ev; k_obs := o |}.\n")
 	sb.WriteString("Definition ob (issued err ssh : bool) (names : list bs) (keyid : bs) (key : N) (ut ca ec ep : bool) (ex : list (bs * bs)) (sg : N) (orgs gr me : list bs) (krb : option (bs * bs)) (other : list bs) : observed :=\n  {| o_issued := issued; o_error := err; o_ssh := ssh; o_names := names; o_keyid := keyid; o_key := key; o_user_type := ut; o_is_ca := ca; o_eku_client := ec; o_eku_pkinit := ep; o_exts := ex; o_signer := sg; o_orgs := orgs; o_groups := gr; o_methods := me; o_krb := krb; o_other_names := other |}.\n")
 	// the shell-expansion oracle per (configuration, user), shared by the cases of that user: every template
 	// string -> its expansion, None when the expander rejects it for this user
@@ -1012,15 +1202,15 @@ func TestVerif_C02(t *testing.T) {
 		if i == len(cases)-1 {
 			sep = ""
 		}
-		sb.WriteString(fmt.Sprintf(" mk %s %s tpl_%d %s %s %s %s %s %s %d %s %s\n   (ob %s %s %s %s %s %d %s %s %s %s %s %d %s %s %s %s %s)%s\n",
+		sb.WriteString(fmt.Sprintf(" mk %s %s tpl_%d %s %s %s %s %s %s %d %s %s %s\n   (ob %s %s %s %s %s %d %s %s %s %s %s %d %s %s %s %s %s)%s\n",
 			coqBool(v.edCA), v.extraCoq(), cs.variant, realm, expName[fmt.Sprintf("%d|%s", cs.variant, cs.user)],
 			coqOptBSList(c02ExpectedGroups(v, cs.user), true), coqOptBSList(c02ExpectedMethods(v, cs.user), true),
-			coqBS(cs.user), coqBS(cs.target), cs.typ, keyLit, coqBool(cs.addGroups),
+			coqBS(cs.user), coqBS(cs.target), cs.typ, keyLit, coqBool(cs.addGroups), cs.envCoq(),
 			coqBool(o.issued), coqBool(o.status >= 400), coqBool(o.ssh), coqBSList(o.names), coqBS(o.keyid), o.keyIdx,
 			coqBool(o.userType), coqBool(o.isCA), coqBool(o.ekuClient), coqBool(o.ekuPkinit), coqPairs(o.exts), o.signer,
 			coqBSList(o.orgs), coqBSList(o.groups), coqBSList(o.methods), krb, coqBSList(o.otherNames), sep))
-		idx.WriteString(fmt.Sprintf("%d\tconfiguration=%s user=%q url=%q type=%s key=%s addGroups=%v -> status=%d issued=%v names=%q key#%d signer=%d exts=%q orgs=%q groups=%q krb=%q other_names=%q\n",
-			i, v.name, cs.user, cs.target, c01Types[cs.typ], k.name, cs.addGroups, o.status, o.issued, o.names, o.keyIdx, o.signer, o.exts, o.orgs, o.groups, o.krb, o.otherNames))
+		idx.WriteString(fmt.Sprintf("%d\tconfiguration=%s environment=%s user=%q url=%q type=%s key=%s addGroups=%v -> status=%d issued=%v names=%q key#%d signer=%d exts=%q orgs=%q groups=%q krb=%q other_names=%q\n",
+			i, v.name, cs.envString(), cs.user, cs.target, c01Types[cs.typ], k.name, cs.addGroups, o.status, o.issued, o.names, o.keyIdx, o.signer, o.exts, o.orgs, o.groups, o.krb, o.otherNames))
 	}
 	sb.WriteString("].\nDefinition c02_diffv := Eval vm_compute in c02_diffv_from cases 0.\n")
 	sb.WriteString("Definition c02_mismatches := Eval vm_compute in map fst c02_diffv.\nPrint c02_mismatches.\n")
